@@ -19,7 +19,7 @@
    collections, named slice types, generic enclosing functions) is executed, each element
    call logs its arguments, and sequence numbers order End hooks against element returns;
    the embedding computed here is compared with the generator's (harness) on every program. *)
-From CffVerif Require Import FlowOpModel FlowOpProofs ParallelModel.
+From CffVerif Require Import FlowOpModel FlowOpProofs ParallelModel ParallelProofs.
 
 Theorem C10_at_most_once :
   forall f sc, unique_providers f -> forall e, reach f sc e -> NoDup (ran e).
@@ -45,6 +45,35 @@ Theorem C10_end_starved :
     (~ In d (ran e) \/ exists efd er, In (d, efd) (xlog e) /\ je_res efd = JFail er) -> ~ In x (ran e).
 Proof. exact failed_dep_starves. Qed.
 Print Assumptions C10_end_starved.
+
+(* every Parallel program qualifies: its embedding has unique providers, so the theorems
+   above hold for all Parallel programs without further hypothesis *)
+Theorem C10_every_parallel_qualifies : forall items, unique_providers (par_flow items).
+Proof. exact par_flow_unique_providers. Qed.
+Print Assumptions C10_every_parallel_qualifies.
+
+Theorem C10_parallel_at_most_once :
+  forall items sc e, reach (par_flow items) sc e -> NoDup (ran e).
+Proof. intros items sc. exact (runs_once (par_flow items) sc (par_flow_unique_providers items)). Qed.
+Print Assumptions C10_parallel_at_most_once.
+
+Theorem C10_parallel_end_starved :
+  forall items sc e x d, reach (par_flow items) sc e -> In d (jdeps (par_flow items) x) ->
+    (~ In d (ran e) \/ exists efd er, In (d, efd) (xlog e) /\ je_res efd = JFail er) -> ~ In x (ran e).
+Proof. intros items sc. exact (failed_dep_starves (par_flow items) sc (par_flow_unique_providers items)). Qed.
+Print Assumptions C10_parallel_end_starved.
+
+(* the End job depends on every job that produces one of its inputs - in the embedding:
+   on every element job of its own collection (end_task (seq ty n) consumes the types that
+   elem_task j, j in seq ty n, produce) *)
+Theorem C10_end_depends_on_its_elements :
+  forall f, unique_providers f -> forall k kend t, k < length (gtasks f) ->
+    In t (kouts (taskof f k)) -> In t (kins (taskof f kend)) -> In (FT k) (jdeps f (FT kend)).
+Proof.
+  intros f Hu k kend t Hk Ho Hi. destruct (Hu k t Hk Ho) as [i Hg].
+  cbn [jdeps]. apply in_or_app. left. eapply in_prov_jobs; eauto.
+Qed.
+Print Assumptions C10_end_depends_on_its_elements.
 
 (* a Task, a Slice of 3 with SliceEnd, a Map of 2 without hook: the End job (index 4)
    depends on exactly the three element jobs; with element 1 failing it cannot run *)
